@@ -513,7 +513,11 @@ fn gen_op(g: &mut Gen, mix: &Mix, key_pool: i32, ops: &mut Vec<Op>, linked: &mut
         let start = g.vals(n);
         let target = g.rng.range_i(0, 2) as i32;
         let overwrite = g.rng.chance(1, 2);
-        ops.push(Op::Cmd { lane: "ctl".into(), body: ctl_recon(&Ctl::Send { target, overwrite, start, n }) });
+        if g.rng.chance(1, 3) {
+            ops.push(Op::Cmd { lane: "ctl".into(), body: ctl_recon(&Ctl::CmdrSend { target: target % 2, queued: !overwrite, start, n }) });
+        } else {
+            ops.push(Op::Cmd { lane: "ctl".into(), body: ctl_recon(&Ctl::Send { target, overwrite, start, n }) });
+        }
     } else if take(mix.stores) {
         match g.rng.below(6) {
             0 | 1 => {
